@@ -28,7 +28,7 @@ MANIFEST = {
 
 FAMILIES = ["ctor", "set_v1", "set_v2", "link_from_to", "link_directed", "link_undirected", "unlink"]
 BOUNDS = {"quick": {"vertices": 3, "pool_links": 2, "pre_state_list_len": 2}, "thorough": {"vertices": 3, "pool_links": 2, "pre_state_list_len": 3}}
-TIME_BUDGET = {"quick": 420, "thorough": 3000}
+TIME_BUDGET = {"quick": 420, "thorough": 1200}
 STUBS = ["uuid.uuid4 -> fresh distinct integer"]
 ASSUMPTIONS = ["pre-state: association invariant (C01) and every pool link has exactly two ends (vertices or None)",
                "pool bound: 3 vertices, 2 links before the call"]
@@ -44,6 +44,8 @@ def configs(tier):
             if tier == "quick" and pool != ["DE", "UE"] and fam in ("link_directed", "link_undirected", "ctor"):
                 continue
             out.append({"family": fam, "pool": pool, "K": K})
+    # unlink when a joining link names a further vertex (attached through add_vertex / add_to_link)
+    out.append({"family": "unlink", "pool": ["DE", "UE"], "K": K, "third_end": True})
     return out
 
 
@@ -118,6 +120,10 @@ def scenario(B, p):
     links = make_links(B, p["pool"])
     K = p["K"]
     symbolic_assoc_state(B, verts, links, K, K + 2, two_ended_wellformed=True)
+    if p.get("third_end"):
+        # the first pool link names a third vertex (position 2), as after e.add_vertex(c)
+        ends = B.items(B.get_field(links[0], "_vertices"))
+        B.set_field(links[0], "_vertices", B.mklist(ends + [B.ref("e0.third", verts)]))
     B.assume(inv01(B, verts, links), "Inv01(pre)")
     U = B.new("U", "Universe")
     B.set_field(U, "_vertices", B.reflist("U.members", verts, 3, 3))
